@@ -9,6 +9,7 @@ SCHEMA = f'''<xs:schema {XS} targetNamespace="urn:t" xmlns:t="urn:t" elementForm
       <xs:element name="sub" minOccurs="0" maxOccurs="unbounded"><xs:complexType><xs:sequence>
           <xs:element name="leaf" type="xs:int" minOccurs="0" maxOccurs="3"/></xs:sequence>
           <xs:attribute name="ref" type="xs:IDREF"/><xs:attribute name="codeRef" type="xs:int"/></xs:complexType></xs:element>
+      <xs:any namespace="##other" processContents="strict" minOccurs="0" maxOccurs="unbounded"/>
      </xs:sequence><xs:attribute name="id" type="xs:ID" use="required"/><xs:attribute name="code" type="xs:int" use="required"/><xs:attribute name="lang" type="xs:language"/></xs:complexType></xs:element>
   </xs:sequence><xs:attribute name="first" type="xs:int"/></xs:complexType>
   <xs:keyref name="R0" refer="t:K"><xs:selector xpath="."/><xs:field xpath="@first"/></xs:keyref>
@@ -33,7 +34,7 @@ def gen(rng, nitems):
     return f'<t:r xmlns:t="urn:t"{first}>' + ''.join(items) + '</t:r>'
 
 
-FAULTS = [(' first="', ' first="98'), ('qty>', 'qty>x'), ('code="0"', 'code="1"'), ('ref="i0"', 'ref="zz"'), ('codeRef="1"', 'codeRef="77"'), ('<t:name>', '<t:bogus/><t:name>'), (' id="i1"', ''),
+FAULTS = [(' first="', ' first="98'), ('qty>', 'qty>x'), ('code="0"', 'code="1"'), ('ref="i0"', 'ref="zz"'), ('codeRef="1"', 'codeRef="77"'), ('<t:name>', '<t:bogus/><t:name>'), (' id="i1"', ''), ('</t:item>', '<o:extra xmlns:o="urn:o"/></t:item>'),
           ('<t:leaf>1', '<t:leaf>q'), ('code="1"', 'code="0"'), ('<t:qty>', '<t:qty extra="1">'), ('</t:item>', '<t:name>dup</t:name></t:item>')]
 
 
